@@ -157,7 +157,9 @@ class Workspace:
 
     def build(self, features, timeout=900):
         cmd = ["cargo", "kani", "--only-codegen", "--target-dir", self.target,
-               "--features", ",".join(features), "-Z", "stubbing", "-Z", "unstable-options"]
+               "-Z", "stubbing", "-Z", "unstable-options"]
+        if features:
+            cmd += ["--features", ",".join(features)]
         log = os.path.join(self.logs, "_build.log")
         rc, _, dt = sh(cmd, cwd=self.hk, timeout=timeout, log=log)
         return rc, log, dt
